@@ -31,6 +31,12 @@ type HistOpts struct {
 	// (at most 6 records) in which one string in five is 66000..140000 bytes, so
 	// single page bodies exceed 64 KiB without many records.
 	HugePct int
+	// NoEdge switches off the edge-value class (on by default: in 15 percent of
+	// the histories a quarter of the scalars are edge values: min/max integers,
+	// varint boundaries, NaN, infinities, negative zero, empty strings, strings
+	// with NUL or invalid UTF-8, strings that spell the Parquet magic or the
+	// templates' "__#NIL#__" sentinel). The tree round-trips all of them.
+	NoEdge bool
 }
 
 // GenHistory draws a writer history from the batch-shape grammar: batch sizes
@@ -61,6 +67,10 @@ func GenHistory(r *Rng, o HistOpts) *WriterSpec {
 			o.Profile.MaxStr = 200
 		}
 		w.Large = true
+	}
+	if !o.NoEdge && r.Intn(100) < 15 {
+		o.Profile.EdgePct = 25
+		w.Edge = true
 	}
 	if o.HugePct > 0 && !w.Large && r.Intn(100) < o.HugePct {
 		w.Huge = true
